@@ -41,9 +41,23 @@ pub fn proj_case(out: &mut Out, p: &Pos) {
           Some((lo, la)) => {
             let dl = (lo - p.lon).abs(); let dl = dl.min((dl - 2.0 * PI).abs());
             let near_pole = (PI / 2.0 - p.lat.abs()) < 1e-6;
-            let tol_lon = if near_pole { f64::INFINITY } else { 1e-14 + 4e-16 / (PI / 2.0 - p.lat.abs()) };
-            if (la - p.lat).abs() > 1e-14 + 2e-8 * ((PI / 2.0 - p.lat.abs()) < 1e-7) as u8 as f64 || dl > tol_lon {
-              out.violation("C17:unproj(proj)", inp.clone(), format!("{} {}", p.lon, p.lat), format!("{} {}", lo, la));
+            if near_pole {
+              // next to a pole the longitude is ill-conditioned: compare on the sphere, with the colatitudes
+              // (angular distance^2 = (c - c')^2 + c c' (2 sin(dlon/2))^2 to first order in the colatitudes)
+              let (c1, c2) = (PI / 2.0 - p.lat.abs(), PI / 2.0 - la.abs());
+              let same_side = (la >= 0.0) == (p.lat >= 0.0) || c1 == 0.0;
+              let d = ((c1 - c2).powi(2) + c1 * c2 * (2.0 * (dl / 2.0).sin()).powi(2)).sqrt();
+              if !same_side || d > 1e-14 {
+                // finding F22: below the pole threshold of deproj_collignon (EPS_POLE = 1e-13 on sqrt(6) cos(lat/2 + pi/4),
+                // i.e. colatitude < 8.2e-14) the longitude is dropped
+                let tag = if c1 < 8.3e-14 { ":within-8.3e-14-of-a-pole" } else { "" };
+                out.violation(&format!("C17:unproj(proj){}", tag), inp.clone(), format!("{} {} (within 1e-14 rad on the sphere)", p.lon, p.lat), format!("{} {} ({:e} rad away)", lo, la, d));
+              }
+            } else {
+              let tol_lon = 1e-14 + 4e-16 / (PI / 2.0 - p.lat.abs());
+              if (la - p.lat).abs() > 1e-14 || dl > tol_lon {
+                out.violation("C17:unproj(proj)", inp.clone(), format!("{} {}", p.lon, p.lat), format!("{} {}", lo, la));
+              }
             }
           }
         }
@@ -106,7 +120,11 @@ pub fn unproj_case(out: &mut Out, x: f64, y: f64, class: &str) {
 pub fn run(out: &mut Out, rng: &mut Rng, thorough: bool) {
   let n = if thorough { 2_000_000 } else { 60_000 };
   for k in 0..n {
-    let p = if k % 20 == 19 { gen_bad_pos(rng) } else { gen_pos(rng) };
+    let p = if k % 20 == 19 { gen_bad_pos(rng) } else if k % 20 == 7 {
+      // towards the poles: colatitude log-uniform in 1e-16 .. 1e-5, any longitude (the pole threshold of the de-projection)
+      let c = 10f64.powf(-5.0 - 11.0 * rng.f01());
+      Pos { lon: rng.f01() * 2.0 * PI, lat: (PI / 2.0 - c) * if rng.chance(0.5) { 1.0 } else { -1.0 }, class: "colatitude-log-uniform-1e-16..1e-5" }
+    } else { gen_pos(rng) };
     proj_case(out, &p);
   }
   for _ in 0..n / 2 {
